@@ -11,7 +11,7 @@ from hypothesis import strategies as st
 
 from .. import pdugen as g
 from .. import refcmd, refpdu, simnet, ulmodel
-from ..common import Violation, HarnessError, hyp_search, lib_frame
+from ..common import Violation, HarnessError, hyp_search, lib_frame, quiet_warnings
 
 LEVEL = 'exploration'
 
@@ -256,7 +256,7 @@ def one(ctx, state, evt, role, artim_pre, var, label):
 
 
 def run(ctx):
-    warnings.simplefilter('ignore')
+    quiet_warnings()
     if len(ulmodel.TABLE) != 123:
         raise HarnessError('model table has %d cells' % len(ulmodel.TABLE))
     ctx.exhaustive = True
@@ -324,7 +324,7 @@ def run(ctx):
 
 
 def replay(case):
-    warnings.simplefilter('ignore')
+    quiet_warnings()
     before = tuple(case['before']) if case.get('before') else None
     obs = exercise(case['state'], case['event'], case['role'], case['artim_pre'], case['variant'], before=before)
     if obs is None:
